@@ -74,7 +74,7 @@ Theorem C13_after_genuine_step : forall tagf s,
 Proof. exact after_genuine_step. Qed.
 Print Assumptions C13_after_genuine_step.
 
-(** checkTransportParameters accepts iff initial_source_connection_id is the handshake DCID and, at
+(** The transport-params check (connection.go:2384) accepts iff initial_source_connection_id is the handshake DCID and, at
     a client, original_destination_connection_id is the original DCID and retry_source_connection_id
     is exactly the recorded Retry SCID (absent iff none). *)
 Theorem C13_check_tp_iff : forall s i od r,
